@@ -686,3 +686,60 @@ def rf43(run):
                           % ('without testing that its last slot target_nth_loc (loc, type, slots_num - 1) is an allocated one' if not inside
                              else 'without a completed conflict scan of all its slots'), line=x['l'])
     run.min_instances(rule, 1)
+
+
+# ---------------------------------------------------------------------------------------------
+# RF44: leaving SSA — the phi result is renamed to the copy register only if no block-ending branch reads it
+# ---------------------------------------------------------------------------------------------
+
+def rf44(run):
+    rule = 'RF44'
+    run.rule(rule, 'make_conventional_ssa: the moves that feed a phi are placed before the branch that ends a predecessor block; the '
+                   'shortcut that renames the phi result to the register written by those moves (instead of adding `r = r%` after the '
+                   'phi) is therefore guarded by a scan of the uses that stops at a use in another block *and* at a use by a branch '
+                   'instruction — in a single-block loop the branch would otherwise read the next iteration\'s value (lost copy)')
+    gen = run.tu('gen')
+    f = gen.func('make_conventional_ssa')
+    run.functions_analysed.add(('gen', f.name))
+    # (1) the copies are inserted before a block-ending branch
+    before = [x for x in f.walk() if x['k'] == 'CallExpr' and x.get('callee') == 'gen_add_insn_before'
+              and 'tail->insn' in F.src(F.strip(F.call_args(x)[1]))]
+    if not before:
+        raise F.AnalysisBroken('make_conventional_ssa: the insertion of phi moves before the predecessor\'s branch was not found')
+    # (2) the rename shortcut and its guard
+    ren = [x for x in f.walk() if x['k'] == 'BinaryOperator' and x['op'] == '=' and F.src(F.strip(x['c'][0])) == 'insn->ops[0].u.var'
+           and F.src(F.strip(x['c'][1])) == 'dest_var']
+    if len(ren) != 1:
+        raise F.AnalysisBroken('make_conventional_ssa: the rename `insn->ops[0].u.var = dest_var` was found %d times' % len(ren))
+    guard_if = None
+    for a in f.ancestors(ren[0]):
+        if a['k'] == 'IfStmt':
+            guard_if = a
+            break
+    if guard_if is None or 'se' not in F.src(guard_if['c'][0]):
+        raise F.AnalysisBroken('make_conventional_ssa: the rename is not guarded by the result of a use scan')
+    # the scan: the for-loop over se preceding the if, whose body breaks on a condition
+    scan = None
+    for x in f.walk():
+        if x['k'] == 'ForStmt' and x['l'] <= guard_if['l'] and 'next_use' in F.src(x['c'][2] if len(x['c']) > 2 and x['c'][2] is not None else x) \
+                and any(y['k'] == 'BreakStmt' for y in F.walk(x)):
+            if scan is None or x['l'] > scan['l']:
+                scan = x
+    if scan is None:
+        raise F.AnalysisBroken('make_conventional_ssa: the scan of the uses of the phi result was not found')
+    brk = None
+    for y in F.walk(scan):
+        if y['k'] == 'IfStmt' and any(z['k'] == 'BreakStmt' for z in F.walk(y['c'][1])):
+            brk = y
+    cond = F.src(brk['c'][0]) if brk is not None else ''
+    other_bb = 'use->bb != bb' in cond
+    branch_use = 'MIR_any_branch_code_p(se->use->insn->code)' in cond.replace(' (', '(') or 'MIR_branch_code_p(se->use->insn->code)' in cond.replace(' (', '(')
+    ok = other_bb and branch_use
+    run.ob(rule, ('rename-guard',), ok, {'scan stops at a use in another block': other_bb, 'scan stops at a use by a branch instruction': branch_use,
+                                        'moves are placed before the predecessor\'s branch': True, 'condition': cond[:120]})
+    if not ok:
+        run.violation(rule, f, 'rename shortcut of the phi result',
+                      'make_conventional_ssa renames `r = phi (…)` to the register its predecessor moves write whenever all uses of r are in '
+                      'the phi\'s block; the moves sit before the block-ending branch, so in a single-block loop a branch that uses r reads '
+                      'the value of the next iteration (e.g. `while (n-- > 0) c++` counts one less)', line=ren[0]['l'])
+    run.min_instances(rule, 1)
